@@ -122,6 +122,10 @@ class BpSeqStub:
         s = render(self.entries)
         self.dot_bracket = DbStub(s)
         self.all_dot_brackets = [self.dot_bracket, DbStub(s.swapcase())]
+        self.elements = ([], [], [], [])  # stems, single strands, hairpins, loops: C07's subject
+
+    def __str__(self):
+        return "\n".join(repr(e) for e in self.entries)
 
 
 # ---------------------------------------------------------------------------------------------------------------------
@@ -199,6 +203,16 @@ class Lab:
             lab, au = self.label(g), self.auth(g)
         else:
             lab, au = self.label(self.specs[who]), self.auth(self.specs[who])
+        if how in ("stale-label", "stale-auth") and not isinstance(who, tuple):
+            # both identifiers given, one of them from another numbering of the same molecule (e.g. an annotation made on the
+            # mmCIF file laid over the PDB file): that one names nothing in this structure, the other one names the residue
+            g = Spec(self.specs[who].chain, 700 + self.specs[who].number, self.specs[who].name)
+            g.label_number = 700 + self.specs[who].label_number
+            if how == "stale-label":
+                lab = self.label(g)
+            else:
+                au = self.auth(g)
+            return self.w.new(CM, "Residue", lab, au)
         return self.w.new(CM, "Residue", lab if how in ("both", "label") else None, au if how in ("both", "auth") else None)
 
     def lw(self, name: str):
@@ -207,8 +221,8 @@ class Lab:
     def saenger(self, name: Optional[str]):
         return None if name is None else self.w.getattr(self.SA, name)
 
-    def entry(self, a: Any, b: Any, lw: str, saenger: Optional[str] = None, how: str = "both") -> Obj:
-        return self.w.new(CM, "BasePair", self.name2d(a, how), self.name2d(b, how), self.lw(lw), self.saenger(saenger))
+    def entry(self, a: Any, b: Any, lw: str, saenger: Optional[str] = None, how: str = "both", how2: Optional[str] = None) -> Obj:
+        return self.w.new(CM, "BasePair", self.name2d(a, how), self.name2d(b, how2 or how), self.lw(lw), self.saenger(saenger))
 
     def pair3d(self, a: int, b: int, lw: str, saenger: Optional[str] = None) -> Obj:
         return self.w.new(T3, "BasePair3D", self.name2d(a), self.name2d(b), self.lw(lw), self.saenger(saenger), self.residues[a], self.residues[b])
@@ -401,6 +415,8 @@ def check_lifting(chk) -> Optional[bool]:
             (E(1, 3, "cWH", how="auth"), True, "named by author ids only"),
             (E(2, 6, "tWW", how="label"), True, "named by label ids only, between chains"),
             (E(1, 4, "cWW", "XIX"), True, "with a Saenger class"),
+            (E(3, 7, "cWS", how="stale-label", how2="both"), True, "first residue named by a label id the structure does not know and by its author id"),
+            (E(2, 7, "tSS", how="both", how2="stale-auth"), True, "partner named by its label id and by an author id the structure does not know"),
             (E(0, ("ghost", "Z", 11, "G"), "cWW"), False, "partner in a chain the structure does not have"),
             (E(("ghost", "A", 99, "G"), 5, "cWW"), False, "first residue with a number the structure does not have"),
             (E(0, ("ghost", "A", 16, "G"), "cWW", how="auth"), False, "partner named A.G16 while the structure has A.C16 at that position (another residue name)"),
@@ -435,6 +451,13 @@ def check_lifting(chk) -> Optional[bool]:
         missing = sorted(want - set(keys), key=str)
         twice = sorted({k for k in keys if keys.count(k) > 1}, key=str)
         n_ok = sum(1 for _, ok, _ in entries if ok)
+        lost = ""
+        if missing:
+            # which resolvable entry is not lifted at all when it is the only one?
+            for e, ok, desc in entries:
+                if ok and not w.getattr(lab.mapping([e], False), "base_pairs"):
+                    lost = f" - the entry {desc} is not lifted"
+                    break
         if invented:
             # which dangling entry produced it?
             why = ""
@@ -457,8 +480,9 @@ def check_lifting(chk) -> Optional[bool]:
             not missing,
             "lifting-fact",
             fi.where,
-            f"{n_ok} resolvable entries (forward, reversed, duplicate, 3'-only in a non-symmetric class, author-only, label-only, with Saenger class) are all lifted together with their mirror images",
-            f"the lifted list lacks {[txt(k) for k in missing[:4]]}: every resolvable entry must be present together with its mirror image (residues swapped, class read from the other nucleotide)",
+            f"{n_ok} resolvable entries (forward, reversed, duplicate, 3'-only in a non-symmetric class, author-only, label-only, with Saenger class, with one stale and one valid identifier) are all lifted together with their mirror images",
+            f"the lifted list lacks {[txt(k) for k in missing[:4]]}{lost}: every resolvable entry must be present together with its mirror image (residues swapped, class read from the other nucleotide); "
+            "a residue named by two identifiers is found when either of them names a residue of the structure",
             K(fi, "lifting-fact:missing"),
             found=[txt(k) for k in missing[:6]],
         )
@@ -773,8 +797,9 @@ def check_extended(chk) -> Optional[bool]:
             E(0, 5, "cWW"),  # duplicate
             E(7, 8, "cSS", how="auth"),
             E(2, ("ghost", "Z", 5, "U"), "cWW"),  # dangling
+            E(4, 8, "cWW"),  # A.G5 is already in the first row, as a later member (not as the pair that opened the row)
         ]
-        want = {(0, 5, "cWW"), (0, 3, "cWW"), (0, 9, "cWW"), (1, 4, "cWW"), (2, 5, "cWW"), (2, 4, "tSH"), (1, 6, "cWH"), (5, 6, "tWW"), (7, 8, "cSS")}
+        want = {(0, 5, "cWW"), (0, 3, "cWW"), (0, 9, "cWW"), (1, 4, "cWW"), (2, 5, "cWW"), (2, 4, "tSH"), (1, 6, "cWH"), (5, 6, "tWW"), (7, 8, "cSS"), (4, 8, "cWW")}
         m = lab.mapping(entries, False)
         text = w.getattr(m, "extended_dot_bracket")
         strands = lab.ref_sequences(False)
@@ -839,8 +864,211 @@ def check_extended(chk) -> Optional[bool]:
     return _guard(chk, "extended-fact", fi, "Mapping2D3D.extended_dot_bracket (with lifting, __generate_bpseq and the slicer)", run)
 
 
+# ---------------------------------------------------------------------------------------------------------------------
+# entry points: what reaches the mapping
+
+
+class Structure2DStub:
+    _folder_stub = True
+
+    def __init__(self, *args, **kwargs):
+        self.args, self.kwargs = args, kwargs
+        self.dotBracket = args[2] if len(args) > 2 else kwargs.get("dotBracket")
+        self.baseInteractions = args[0] if args else kwargs.get("baseInteractions")
+
+
+def mapping_sites(repo: Repo) -> List[Tuple[Any, ast.Call]]:
+    """(function, call) for every construction of tertiary.Mapping2D3D in a module-level function of the package"""
+    out = []
+    for mod in repo.modules.values():
+        for q, fi in mod.funcs.items():
+            if "." in q:
+                continue
+            for n in ast.walk(fi.node):
+                if isinstance(n, ast.Call) and isinstance(n.func, (ast.Name, ast.Attribute)):
+                    nm = n.func.id if isinstance(n.func, ast.Name) else n.func.attr
+                    if nm != CLS:
+                        continue
+                    try:
+                        hm, hn = repo.const_home(mod.name, nm)
+                    except Exception:
+                        continue
+                    if (hm, hn) == (T3, CLS):
+                        out.append((fi, n))
+    return out
+
+
+def check_entry_input(chk) -> None:
+    """The statement quantifies over *any* pair list - reversed, duplicated, dangling entries included.  Every function of the
+    package that builds the mapping from a set of interactions is interpreted on the lifting model: the mapping it builds must lift
+    exactly what a mapping of the whole input list lifts (pairs and stackings), over the given structure, with the given gap option.
+    An entry point that narrows the list first (one orientation only, a slice, a class filter) makes the text describe another list
+    than the one reported next to it."""
+    repo = chk.repo
+    sites = mapping_sites(repo)
+    if not sites:
+        chk.error("mapping-input-fact", "-", "no construction of tertiary.Mapping2D3D found in a module-level function of the package: what the entry points hand to the mapping is not decided")
+    seen = set()
+    for fi, call in sites:
+        if id(fi) in seen:
+            continue
+        seen.add(id(fi))
+        chk.note_function(fi)
+        verdict = {"done": False}
+
+        def run(fi=fi):
+            _entry_input(chk, fi, verdict)
+
+        r = _guard(chk, "mapping-input-fact", fi, f"{fi.module.name}.{fi.qualname}", run)
+        if r is None or not verdict["done"]:
+            _entry_input_form(chk, fi, [c for f2, c in sites if f2 is fi])
+
+
+def _entry_model(lab: Lab):
+    E = lab.entry
+    w = lab.w
+    pairs = [
+        E(0, 5, "cWW"),
+        E(5, 0, "cWW"),  # the same pair from its other end
+        E(4, 2, "tHS"),  # listed only from its 3' end
+        E(1, 3, "cWH", how="auth"),
+        E(1, 3, "cWH", how="auth"),  # duplicate
+        E(2, 6, "tWW", how="label"),
+        E(7, 6, "cSS"),  # between B.C12 and B.PSU11, from the 3' end only
+        E(0, ("ghost", "Z", 11, "G"), "cWW"),  # dangling
+    ]
+    ST = ClassRef(w.cls(CM, "StackingTopology"))
+    S = lambda a, b, t: w.new(CM, "Stacking", lab.name2d(a), lab.name2d(b), w.getattr(ST, t))
+    stackings = [S(0, 1, "upward"), S(3, 2, "downward"), S(4, 5, "inward"), S(7, 6, "outward")]
+    return pairs, stackings
+
+
+def _lifted_keys(lab: Lab, m: Obj) -> Tuple[List[Any], List[Any]]:
+    w = lab.w
+    bp = [(lab.idx(x.fields.get("nt1_3d")), lab.idx(x.fields.get("nt2_3d")), x.fields["lw"].name, x.fields["saenger"].name if x.fields["saenger"] is not None else None) for x in w.getattr(m, "base_pairs")]
+    st = [(lab.idx(x.fields.get("nt1_3d")), lab.idx(x.fields.get("nt2_3d")), x.fields["topology"].name if x.fields["topology"] is not None else None) for x in w.getattr(m, "stackings")]
+    return bp, st
+
+
+def _entry_input(chk, fi, verdict) -> None:
+    repo = chk.repo
+    mod = fi.module.name
+    problems: List[Tuple[str, str, Any]] = []
+    n_runs = 0
+    for find_gaps in (False, True):
+        for all_db in (False, True):
+            lab = lifting_model(repo)
+            w = lab.w
+            pairs, stackings = _entry_model(lab)
+            bi = w.new(CM, "BaseInteractions", list(pairs), list(stackings), [], [], [])
+            built: List[Obj] = []
+            real = w.cls(T3, CLS)
+
+            def make(*args, **kwargs):
+                o = w.instantiate(real, args, kwargs)
+                stub = BpSeqStub([])
+                # text, elements and geometry of the mapping are other rules' (and other properties') subject
+                o.cache.update({"bpseq": stub, "_generated_bpseq_data": (stub, {}), "bpseq_index_to_residue_map": {}, "dot_bracket": "<dot-bracket>", "extended_dot_bracket": "<extended>", "all_dot_brackets": ["<dot-bracket>", "<second>"]})
+                built.append(o)
+                return o
+
+            w.class_overrides[CLS] = make
+            w.class_overrides["Structure2D"] = Structure2DStub
+            for m2 in repo.modules:
+                w.func_overrides[(m2, "calculate_all_inter_stem_parameters")] = lambda *a, **k: []
+                w.func_overrides[(m2, "extract_base_interactions")] = lambda *a, **k: bi
+            # arguments by annotation
+            args = []
+            a = fi.node.args
+            for p in a.posonlyargs + a.args:
+                ann = ast.unparse(p.annotation) if p.annotation is not None else ""
+                if "Structure3D" in ann:
+                    args.append(lab.structure)
+                elif "BaseInteractions" in ann:
+                    args.append(bi)
+                elif "bool" in ann:
+                    args.append(find_gaps if "gap" in p.arg else all_db if ("all" in p.arg or "bracket" in p.arg) else False)
+                elif "int" in ann:
+                    args.append(None)
+                else:
+                    raise Unknown(f"parameter `{p.arg}` of {fi.qualname} has no model value")
+            if a.vararg or a.kwarg or a.kwonlyargs:
+                raise Unknown("variadic entry point")
+            from sa.objeval import FuncRef
+
+            FuncRef(w, mod, lab.raw.func(mod, fi.qualname).node)(*args)
+            n_runs += 1
+            tag = f"gap detection {'on' if find_gaps else 'off'}, all_dot_brackets={all_db}"
+            if not built:
+                raise Unknown("no mapping is built on the evaluated path")
+            d2 = w.instantiate(real, (lab.structure, list(pairs), list(stackings), find_gaps), {})
+            want_bp, want_st = _lifted_keys(lab, d2)
+            show = lambda k: f"{lab.show(k[0]) if k[0] is not None else '?'}-{lab.show(k[1]) if k[1] is not None else '?'} {k[2]}"
+            for m in built:
+                got_bp, got_st = _lifted_keys(lab, m)
+                miss = [k for k in want_bp if k not in got_bp]
+                extra = [k for k in got_bp if k not in want_bp]
+                if miss or extra:
+                    problems.append(("pairs", f"the mapping built by {fi.qualname} lifts {len(got_bp)} pairs where a mapping of the whole input list lifts {len(want_bp)}: " + (f"{[show(k) for k in miss[:4]]} are lost" if miss else f"{[show(k) for k in extra[:4]]} are added") + " (input: a pair listed from both ends, pairs listed only from their 3' end, a duplicate, author-only and label-only names, a dangling entry): the list handed to the mapping is not the interactions' whole pair list, so BPSEQ, dot-bracket and extended rows describe another list than the one reported", [show(k) for k in (miss or extra)[:6]]))
+                miss_s = [k for k in want_st if k not in got_st]
+                extra_s = [k for k in got_st if k not in want_st]
+                if miss_s or extra_s:
+                    problems.append(("stackings", f"the mapping built by {fi.qualname} lifts {len(got_st)} stackings where a mapping of the whole input list lifts {len(want_st)} (lost {[show(k) for k in miss_s[:3]]}, added {[show(k) for k in extra_s[:3]]})", None))
+                if m.fields.get("structure3d") is not lab.structure:
+                    problems.append(("structure", f"the mapping built by {fi.qualname} is not over the structure it was given", None))
+                if bool(m.fields.get("find_gaps")) != find_gaps:
+                    problems.append(("gaps", f"{fi.qualname} builds the mapping with find_gaps={m.fields.get('find_gaps')!r} when called with find_gaps={find_gaps} ({tag})", None))
+    verdict["done"] = True
+    texts = {
+        "pairs": "the mapping lifts exactly what a mapping of the whole input pair list lifts",
+        "stackings": "the mapping lifts exactly the stackings of the input",
+        "structure": "the mapping is over the given structure",
+        "gaps": "the gap option is handed on as given",
+    }
+    first: Dict[str, Tuple[str, Any]] = {}
+    for k, msg, found in problems:
+        first.setdefault(k, (msg, found))
+    for k, t in texts.items():
+        if k in first:
+            chk.violation("mapping-input-fact", fi.where, first[k][0], K(fi, f"mapping-input-fact:{k}"), found=first[k][1])
+        else:
+            chk.ok("mapping-input-fact", fi.where, f"{fi.module.name}.{fi.qualname}: {t} ({n_runs} evaluated calls: gap detection on/off x all_dot_brackets on/off)")
+
+
+def _entry_input_form(chk, fi, calls: List[ast.Call]) -> None:
+    """Fallback for an entry point outside the interpreted fragment (argparse mains): the pair-list argument of the constructor is,
+    after inlining local single assignments, an attribute chain ending in `.basePairs` - nothing computed from it."""
+    from sa import astq
+
+    for call in calls:
+        arg = call.args[1] if len(call.args) > 1 else next((k.value for k in call.keywords if k.arg == "base_pairs2d"), None)
+        site = fi.site(call)
+        if arg is None:
+            chk.error("mapping-input-form", site, "the pair-list argument of Mapping2D3D(...) was not found")
+            continue
+        e = arg
+        for _ in range(4):
+            d = astq.single_def(fi.node, e.id) if isinstance(e, ast.Name) else None
+            if d is None:
+                break
+            e = d
+        chain = e
+        while isinstance(chain, ast.Attribute):
+            chain = chain.value
+        if isinstance(e, ast.Attribute) and e.attr == "basePairs" and isinstance(chain, ast.Name):
+            chk.ok("mapping-input-form", site, f"Mapping2D3D receives `{ast.unparse(e)}`: the interactions' own pair list, nothing computed from it")
+        elif isinstance(e, ast.Name):
+            chk.ok("mapping-input-form", site, f"Mapping2D3D receives the caller's list `{e.id}` as it is")
+        else:
+            chk.error("mapping-input-form", site, f"Mapping2D3D receives `{ast.unparse(e)[:80]}`, a value computed from the pair list, in a function outside the interpreted fragment: whether every input entry reaches the mapping is not decided")
+
+
 def check(chk) -> Dict[str, bool]:
     """Runs the fact-level rules; mechanism -> decided at fact level (False = fall back to the pinned forms)."""
+    try:
+        check_entry_input(chk)
+    except Exception as ex:
+        chk.error("mapping-input-fact", "-", f"evaluation of the entry points failed internally ({type(ex).__name__}: {str(ex)[:120]})")
     out = {}
     for name, fn in (("lifting", check_lifting), ("resolution", check_resolution), ("numbering", check_numbering), ("text", check_text), ("extended", check_extended)):
         try:
